@@ -654,6 +654,8 @@ def _miss_reported_to_loud_caller(body, g, m, none_arm):
         miss_variant = "Err"
     if isinstance(tail, dict) and tail.get("k") == "Path" and (tail.get("res") or {}).get("variant") == "None":
         miss_variant = "None"
+    if isinstance(tail, dict) and tail.get("k") == "Lit" and "Bool(false)" in str(tail.get("lit")):
+        miss_variant = "false"      # `fn try_remap(..) -> bool`: false = no entry
     if miss_variant is None:
         return False
     # innermost inlined call that contains the lookup, and whose helper body's value is the match
@@ -668,6 +670,15 @@ def _miss_reported_to_loud_caller(body, g, m, none_arm):
     while isinstance(hb, dict) and hb.get("k") == "Block" and not hb.get("stmts") and hb.get("expr") is not None:
         hb = peel(hb["expr"])
     if hb is not m:
+        return False
+    if miss_variant == "false":
+        for n in walk(body):
+            if n.get("k") == "If":
+                c_ = peel(n["cond"])
+                if c_.get("k") == "Unary" and c_.get("op") == "!" and peel(c_["a"]) is holder and diverges(n["then"]):
+                    return True
+                if c_ is holder and "else" in n and diverges(n["else"]):
+                    return True
         return False
     test = {"Err": ("is_err",), "None": ("is_none",)}[miss_variant]
     for n in walk(body):
@@ -1197,6 +1208,8 @@ def _walk_outside_call_args(n):
     if not isinstance(n, dict):
         return
     yield n
+    if n.get("k") == "AddrOf" and n.get("mut"):
+        return      # `&mut buf` (also inside an array/tuple literal) lends the buffer for writing: not a whole *read*
     for k_, v in n.items():
         if k_ == "args" and n.get("k") in ("Call", "MethodCall"):
             continue
@@ -1258,6 +1271,11 @@ def loop_scratch(F, roots=None):
                     continue  # not a container (e.g. a stateless re-encoder passed as &mut)
                 managed = False
                 whole_reads = []
+                # lent mutably through a literal (`for m in [&mut a, &mut b] { m.remove(k) }`): what happens to it is not
+                # followed; it is not a per-iteration scratch buffer in any case
+                for lit_ in walk(loop_body):
+                    if lit_.get("k") in ("Array", "Tup") and any(y.get("k") == "AddrOf" and y.get("mut") and peel(y["a"]).get("res", {}).get("hid") == h for y in lit_.get("elems", [])):
+                        managed = True
                 for c in walk(loop_body):
                     if c.get("k") == "MethodCall":
                         rv = peel(c["recv"])
